@@ -252,8 +252,7 @@ Do(c) ==
     [] c[1] = "C" -> CloneT2Act(c[2])
 
 (* the documented loop, past the end, reset, half a walk, clone, ... *)
-RECURSIVE Rep(_, _)
-Rep(xs, n) == IF n <= 0 THEN <<>> ELSE xs \o Rep(xs, n - 1)
+Rep(xs, n) == IF n <= 0 THEN <<>> ELSE [i \in 1..(n * Len(xs)) |-> xs[((i - 1) % Len(xs)) + 1]]   \* xs repeated n times
 Script(s) ==
   LET n == Len(Elems(s))
       h == (n + 1) \div 2
